@@ -61,6 +61,8 @@ type Ctx struct {
 	Prog      *ssa.Program
 	SSA       map[string]*ssa.Package // by package path
 	AllFuncs  map[*ssa.Function]bool  // every function with a body in repo packages (incl. closures)
+	aliasFrom string
+	aliasTo   string
 	Obls      []*Obligation
 	oblIndex  map[string]*Obligation
 	Notes     []string
@@ -223,12 +225,23 @@ func FuncName(f *ssa.Function) string {
 // ---------------------------------------------------------------------------------------------
 // obligations
 
+// alias: while aliasFrom is set, rule ids starting with it are renamed (a property's check can run
+// another property's rules as its own premises, under its own rule ids and floors).
+func (c *Ctx) alias(id string) string {
+	if c.aliasFrom != "" && strings.HasPrefix(id, c.aliasFrom) {
+		return c.aliasTo + strings.TrimPrefix(id, c.aliasFrom)
+	}
+	return id
+}
+
 func (c *Ctx) Rule(id, text string, floor int) {
+	id = c.alias(id)
 	c.Rules[id] = text
 	c.Floors[id] = floor
 }
 
 func (c *Ctx) Add(rule, key string, st Status, pos, detail string, nontrivial bool) *Obligation {
+	rule = c.alias(rule)
 	full := rule + "|" + key
 	if o, ok := c.oblIndex[full]; ok {
 		// keep the worst status
